@@ -114,6 +114,7 @@ func main() {
 		os.Exit(1)
 	}
 	c.Tier = *tier
+	theCtx = c
 	af := filepath.Join(*verif, "anchors.json")
 	if _, err := os.Stat(af); err != nil {
 		if exe, err2 := os.Executable(); err2 == nil { // scratch evidence directories: the committed table sits next to bin/
